@@ -217,14 +217,17 @@ class Collection:
 
         return result
 
-    def _extend(self, other, memo):
-        """Extend fields in self with data from other"""
+    def _extend(self, other, memo, len_self=None, len_other=None):
+        """Extend fields in self with data from other
+
+        A collection without fields does not know its number of rows, len_self and len_other can be used to pass them
+        """
         only_in_other = set(other._fields.keys()) - set(self._fields.keys())
         only_in_self = set(self._fields.keys()) - set(other._fields.keys())
 
         # The length of a collection is the length of its first field, which changes while the fields are extended
-        len_self = len(self)
-        len_other = len(other)
+        len_self = len(self) if len_self is None else len_self
+        len_other = len(other) if len_other is None else len_other
 
         if len_self == 0:
             only_in_other = only_in_other | set(self._fields.keys())
